@@ -37,7 +37,16 @@ Module containing Fortran2008 Error_Stop_Stmt rule R856
 """
 
 from fparser.two.Fortran2003 import Stop_Code
+import re
+
+from fparser.two.pattern_tools import Pattern
 from fparser.two.utils import StmtBase, WORDClsBase
+
+# Any number of blanks may separate the two keywords (e.g. after a
+# continuation line).
+_ERROR_STOP = Pattern(
+    "<error-stop>", r"ERROR\s+STOP\b", flags=re.I, value="ERROR STOP"
+)
 
 
 class Error_Stop_Stmt(StmtBase, WORDClsBase):  # R856
@@ -65,4 +74,4 @@ class Error_Stop_Stmt(StmtBase, WORDClsBase):  # R856
             or NoneType
 
         """
-        return WORDClsBase.match("ERROR STOP", Stop_Code, string)
+        return WORDClsBase.match(_ERROR_STOP, Stop_Code, string)
